@@ -816,6 +816,9 @@ func vc20OutsideWorld(step, errText string) (ok bool) {
 		return strings.HasPrefix(errText, "allowlist: initial refresh: ")
 	case step == "allowlist-later-refresh":
 		return true
+	case step == "profiledb-init":
+		// The profiles backend of the environment is down.
+		return strings.Contains(errText, "initial refresh")
 	}
 
 	return false
@@ -1808,6 +1811,57 @@ func TestVerifC20BackendUsage(t *testing.T) {
 	be.refuse, be.laterFail = false, false
 	be.fail.Store(false)
 	st.Extra("rate_limit_backend_calls", be.calls.Load())
+	col.report()
+}
+
+// TestVerifC20RefreshIntervals runs the profile database and its refresh worker,
+// the one the builder starts with a randomised start, with tiny, small and
+// ordinary values of backend.refresh_interval, with profiles enabled and not.
+func TestVerifC20RefreshIntervals(t *testing.T) {
+	st := vstat.New("C20", "cmd.refreshintervals", "bounded-exhaustive: backend.refresh_interval in {1ns,5ns,9ns,10ns,11ns,99ns,100ns,1us,1ms,15s,1h} x profiles_enabled {true,false}; builder.initProfileDB is the package's own, against a fake profiles backend; the worker ticks, is checked for a recovered panic in the log, and is shut down by the signal handler; "+vc20Rule,
+		"accepted", "exercise-full", "refresh-interval-below-10ns-with-profiles-enabled", "profiledb-refresh-loop-alive", "profiledb-disabled", "val:tiny")
+	st.SetExhaustive()
+	st.Finish(t)
+
+	ck := vc20NewChecker(t, st)
+	col := &vc20Collector{t: t}
+	fx := ck.fx
+	fx.profBackend = vc20StartProfilesBackend(t)
+	find := func(name string) (f *vc20Field) {
+		for _, f = range fx.fields {
+			if f.name == name {
+				return f
+			}
+		}
+
+		t.Fatalf("fixture: no field %s in the catalogue", name)
+
+		return nil
+	}
+
+	ivl, profiles := find("backend.refresh_interval"), find("server_groups.0.profiles_enabled")
+	for _, v := range []string{"1ns", "5ns", "9ns", "10ns", "11ns", "99ns", "100ns", "1us", "1ms", "15s", "1h"} {
+		for _, prof := range []bool{true, false} {
+			var muts []vc20Mutation
+			if v != ivl.orig {
+				cls := "near"
+				if len(v) <= 4 && strings.HasSuffix(v, "ns") {
+					cls = "tiny"
+				}
+
+				muts = append(muts, vc20Mutation{field: ivl, val: vc20Value{class: cls, v: v}})
+			}
+
+			if prof != profiles.orig {
+				muts = append(muts, vc20Mutation{field: profiles, val: vc20Value{class: "flip", v: prof}})
+			}
+
+			col.run(func() { ck.vc20Eval(col, muts, false) })
+		}
+	}
+
+	st.Extra("profiles_backend_calls", fx.profBackend.calls.Load())
+	st.Extra("goroutines_at_end", runtime.NumGoroutine())
 	col.report()
 }
 
